@@ -194,6 +194,20 @@ def _fallback(model: Model, rep: Report) -> None:
                 r4.check(ok, site(f, n), f.qualname, " ".join(unparse(n).split())[:120], why=f"raises {cls.split('.')[-1]}, which PDFDocument.__init__ does not route to the body-scan fallback")
             if isinstance(n, ast.Assert):
                 r4.violation(site(f, n), f.qualname, " ".join(unparse(n).split())[:120], "a damaged table trips an assert: AssertionError is not routed to the body-scan fallback")
+    # running out of input while a cross-reference section is being read is "no valid xref" too: every tokenizer call of the
+    # loaders sits in a try whose PSEOF handler raises PDFNoValidXRef (or recovers)
+    for q in (DOC + ".read_xref_from", D + "PDFXRef.load", D + "PDFXRef.load_trailer", D + "PDFXRefStream.load"):
+        f = model.func(q)
+        for c in walk_no_nested(f.node):
+            if not (isinstance(c, ast.Call) and (dotted(c.func) or "") in ("parser.nexttoken", "parser.nextobject", "parser.nextline")):
+                continue
+            covered = False
+            for t in walk_no_nested(f.node):
+                if isinstance(t, ast.Try) and any(x is c for st_ in t.body for x in ast.walk(st_)):
+                    for h in t.handlers:
+                        if h.type is not None and "PSEOF" in unparse(h.type):
+                            covered = True
+            r4.check(covered, site(f, c), f.qualname, f"`{unparse(c)}` runs under an `except PSEOF` handler", why="PSEOF (end of input) escapes the loader: it is not a PDFNoValidXRef, so PDFDocument.__init__ does not fall back to scanning the body - e.g. a startxref offset that points at an integer near the end of the file")
     init = model.func(DOC + ".__init__")
     hs = [h for n in walk_no_nested(init.node) if isinstance(n, ast.Try) for h in n.handlers if h.type is not None and "PDFNoValidXRef" in unparse(h.type)]
     okh = False
